@@ -110,9 +110,11 @@ func cmdCheck(args []string) int {
 		timeout, _ = strconv.Atoi(s)
 	}
 	s := NewSched(timeout)
-	s.budget = 420 * time.Second
+	s.budget = 900 * time.Second
 	if tier == "thorough" {
 		s.budget = 3 * time.Hour
+		s.cross = true
+		s.crossMax = 150
 	}
 	if v := os.Getenv("VERIF_BUDGET_S"); v != "" {
 		if n, err := strconv.Atoi(v); err == nil {
@@ -522,6 +524,7 @@ func cmdCheck(args []string) int {
 			"inconclusive":                  inconclusive,
 			"engine_mismatches":             mismatches,
 			"known_findings_hit":            keys(knownPrinted),
+			"cross_solver":                  map[string]interface{}{"obligations_rechecked": s.crossDone, "agree": s.crossAgree, "disagree": s.crossDisagree, "unknown": s.crossUnknown, "solvers": "z3 4.8.12, cvc5 1.0 (fresh processes, standalone scripts; thorough tier only)"},
 			"max_allocation_cells":          tot.MaxAlloc,
 			"max_allocation_site":           tot.MaxAllocSite,
 		},
@@ -537,6 +540,10 @@ func cmdCheck(args []string) int {
 		prop, tier, len(jobs), tot.Paths, tot.Asserts, tot.Discharged, tot.Asserts-tot.Obligations, tot.Solver.Queries, tot.Solver.Sat, tot.Solver.Unsat, tot.Solver.Unknown, tot.Solver.Time.Seconds(), time.Since(t0).Seconds(), validated, violations, len(knownPrinted), len(inconclusive), mismatches)
 	if os.Getenv("VERIF_REPLAYLOG") != "" {
 		fmt.Println(replayLog.String())
+	}
+	if s.crossDisagree > 0 {
+		fmt.Println("ENGINE-MISMATCH solvers disagree:", s.crossNote)
+		mismatches++
 	}
 	switch {
 	case violations > 0:
